@@ -96,30 +96,6 @@ class Model:
         return c
 
 
-def ring_keys(c):
-    out = []
-    anchor = c._anchor
-    link = anchor[1]
-    guard = 0
-    while link is not anchor:
-        out.append((link[2], link[3]))
-        link = link[1]
-        guard += 1
-        if guard > 50:
-            return None
-    # backward walk must mirror the forward walk
-    back = []
-    link = anchor[0]
-    while link is not anchor:
-        back.append((link[2], link[3]))
-        link = link[0]
-        if len(back) > 50:
-            return None
-    if list(reversed(back)) != out:
-        return None
-    return out
-
-
 def state_ok(c, M, calls_log):
     """static checks (non destructive); returns clause or None"""
     if len(c) > M.ms:
